@@ -236,6 +236,10 @@ def linbasex_transform_full(IM, basis_dir=None, proj_angles=[0, np.pi/2],
 
     QLz = np.zeros((proj, cols))  # array for projections.
 
+    if not np.issubdtype(IM.dtype, np.inexact):
+        # (rotation of an integer image would round the interpolated pixels)
+        IM = IM.astype(float)
+
     # Rotate and project VMI-image for each angle (as many as projections)
     # if proj_angles == [0, np.pi/2]:
     #     # If coordinates of the detector coincide with the projection
